@@ -154,10 +154,11 @@ class Driver:
         return d
 
 
-def run_script(version, calls, script):
+def run_script(version, calls, script, seq0=0):
     """calls: list of command names issued at the start (ids 0..); script: reactions for the current
     holder, consumed one at a time until every call has ended"""
     d = Driver(version)
+    d.proto._seq = seq0 % 256         # a handler that has already issued seq0 commands
     try:
         names = {}
         for i, n in enumerate(calls):
@@ -245,13 +246,13 @@ class Check(PropertyCheck):
     pid = "C06"
     gen_files = ["GenCmd", "GenProto"]
     model_imports = ["lib.EzspTypes", "gen.GenCmd", "gen.GenProto", "model.EzspCodec", "model.EzspProto", "model.EzspCases"]
-    run_expr = "run_c06_case"
-    case_type = "(list pevent)"
+    run_expr = "run_c06_case_from"
+    case_type = "(N * list pevent)"
     shard = 150
     rule = ("up to N concurrent callers of mixed priority (keep-alive / ordinary / packet-send commands) x per-command NCP behaviour "
             "{reply, duplicate reply, reply after the timeout, never, callback before/after, reply under a foreign number, invalidCommand, "
             "other command's id under the pending number, link-level send failure, reply before send_data returns} x caller cancellation "
-            "(holder or queued) x late arrivals; runs of 300 commands wrap the sequence number; EZSP v4 and v8; non-trivial = more than "
+            "(holder or queued) x late arrivals; handlers that have already issued 250..255 commands (every reaction at the 255 -> 0 wrap); EZSP v4 and v8; non-trivial = more than "
             "one caller or a non-'reply' reaction; distinct by (version, calls, script)")
     assumptions = ["callback frames carry a sequence number that is not pending (firmware convention)",
                    "zigpy PriorityDynamicBoundedSemaphore is exercised for real; its contract is what the model states"]
@@ -287,6 +288,17 @@ class Check(PropertyCheck):
                 else:
                     script.append(("cancel_queued", rng.randrange(4)))
             cases.append({"v": v, "calls": calls, "script": script})
+        # sequence number wrap: the handler has already issued 250..255 commands; every reaction at and around number 255
+        for v in (4, 8):
+            for seq0 in (250, 253, 254, 255, 511):
+                for r in REACTIONS:
+                    cases.append({"v": v, "seq0": seq0, "calls": ["getEui64", "nop", "getNodeId"], "script": [r, "reply", r, "reply"]})
+                cases.append({"v": v, "seq0": seq0, "calls": ["getEui64"] * 3 + ["nop"] * 3, "script": ["reply"] * 8})
+        for _ in range(40 if tier == "quick" else 600):
+            c = dict(cases[rng.randrange(len(cases))])
+            if "seq0" not in c:
+                c["seq0"] = rng.choice([rng.randrange(256), 254, 255, 253])
+                cases.append(c)
         # sequence number wrap: 300 commands in a row
         for v in (4, 8):
             cases.append({"v": v, "calls": ["nop"], "script": [("newcall", rng.choice(names)) if i % 2 == 0 else "reply" for i in range(600)][:58]})
@@ -295,7 +307,7 @@ class Check(PropertyCheck):
 
     def run_impl(self, case):
         script = [tuple(x) if isinstance(x, list) else x for x in case["script"]]
-        obs = run_script(case["v"], case["calls"], script)
+        obs = run_script(case["v"], case["calls"], script, case.get("seq0", 0))
         case["_events"] = obs.pop("events")
         return obs
 
@@ -315,7 +327,7 @@ class Check(PropertyCheck):
                 out.append(f"ETimeout {e[1]}")
             elif e[0] == "cancel":
                 out.append(f"ECancel {e[1]}")
-        return "[" + "; ".join(out) + "]"
+        return f"({case.get('seq0', 0)}, [" + "; ".join(out) + "])"
 
     def obs_to_z(self, case, obs):
         if "crash" in obs:
@@ -347,7 +359,13 @@ class Check(PropertyCheck):
         waiting_prio = {}     # queued calls: id -> (prio, arrival)
         arrival = 0
         prio_of = {}
+        send_returned = set()
+        ended = set()
+        consumed = set()      # sequence numbers whose registration a frame has already used up
         for ev, st in zip(evs, steps):
+            inflight0 = inflight
+            if ev[0] == "senddone" and ev[2]:
+                send_returned.add(ev[1])
             if ev[0] == "call":
                 arrival += 1
                 prio_of[ev[1]] = (ev[3], arrival)
@@ -367,6 +385,7 @@ class Check(PropertyCheck):
                         if (best[0], -best[1]) > (mine[0], -mine[1]) and ev[0] != "call":
                             return f"command {cid} (priority {mine[0]}) started before a waiting command of priority {best[0]}"
                     pending[seq] = (cid, fid)
+                    consumed.discard(seq)
                     inflight = cid
                 elif e[0] == "ret":
                     _, cid, vals = e
@@ -389,10 +408,20 @@ class Check(PropertyCheck):
                     if inflight == e[1]:
                         inflight = None
                     waiting_prio.pop(e[1], None)
+            for e in st:
+                if e[0] in ("ret", "raise"):
+                    ended.add(e[1])
             if ev[0] == "frame":
                 _, seq, fid, invalid, flat = ev
                 rets = [e for e in st if e[0] == "ret"]
                 cbs = [e for e in st if e[0] == "cb"]
+                # the response that carries the sequence number and the frame id of the command in flight completes it
+                reg0 = pending.get(seq) if seq not in consumed else None
+                if (reg0 is not None and not invalid and reg0[1] == fid and reg0[0] == inflight0 and inflight0 in send_returned
+                        and not any(e[0] in ("ret", "raise") and e[1] == inflight0 for s0 in steps[:steps.index(st)] for e in s0)):
+                    if not any(r[1] == inflight0 for r in rets):
+                        return (f"the NCP answered command {inflight0} (sequence number {seq}, frame id {fid:#x}) but the call did "
+                                f"not return that response" + (": it was handed to the callbacks" if cbs else ""))
                 for r in rets:
                     reg = pending.get(seq)
                     if reg is None or reg[0] != r[1]:
@@ -403,6 +432,11 @@ class Check(PropertyCheck):
                         return f"command {r[1]} returned values that are not the frame's payload"
                 if len(cbs) > 1:
                     return "a frame was delivered to the callbacks more than once"
+                # a frame under a registered number consumes the registration, whether it completes the call or not
+                # (another command's id under the pending number fails the lookup and drops the entry: that call then
+                # ends by timeout, which the property permits)
+                if seq in pending and not (ev[0] == "frame" and steps.index(st) < 0):
+                    consumed.add(seq)
         return None
 
     def nontrivial(self, case, obs):
